@@ -28,7 +28,6 @@ var gKnownPatterns = []struct {
 	{"table_subquery_in_parens", regexp.MustCompile(`(?i)\(\(+(SELECT|WITH|FROM)\b`), "a table subquery whose query_expr is itself parenthesised is taken for a parenthesised join: FROM ((SELECT 1))"},
 	{"subscript_offset_ordinal_column", regexp.MustCompile(`(?i)\[(SAFE_)?(OFFSET|ORDINAL)\b`), "a subscript expression that starts with a column or function named offset / ordinal (a[offset], a[ORDINAL * 2], a[ordinal(x => 1).f]) is taken for the position keyword"},
 	{"dot_float_after_word", regexp.MustCompile("(?i)[A-Za-z0-9_`] \\.[0-9]"), "a float literal written .5 directly after an identifier or keyword-like word (AS VALUE .5, SELECT AS T .5, HAVING MAX .5, THEN RETURN .5, WITH ACTION .5) lexes as '.' and an identifier (the lexer's dot-identifier mode after an identifier token)"},
-	{"named_type_scalar_prefix", regexp.MustCompile(`(?i)\b(BOOL|INT64|FLOAT32|FLOAT64|NUMERIC|STRING|BYTES|DATE|TIMESTAMP|JSON|TOKENLIST)\.`), "a named (proto/enum) type whose first path component spells a scalar type name (date.x) is cut after the first component"},
 }
 
 // gKnownRejected: single sentences (text -> reason), for defects that depend on one identifier at one position.
